@@ -343,22 +343,26 @@ Section LD.
   Variable di_sig : string -> dec.                 (* multibase decoding of proofValue and its meaning *)
   Variable di_expect : string * string * string.   (* expected purpose ("" = assertionMethod), domain, challenge *)
 
+  (* the members of the signed configuration: GENERATED for the current code; as found, domain and challenge were
+     not among them *)
   Definition di_members (v : variant) : list string :=
-    match v with AsIs => di_config_members | Fixed => di_config_members end.
+    match v with
+    | AsIs => ["@context"; "created"; "cryptosuite"; "proofPurpose"; "type"; "verificationMethod"]
+    | Fixed => di_config_members
+    end.
 
   (* the signed proof configuration: members taken from the GENERATED list *)
   Definition di_config (mem : list string) (ctx : json) (m : obj) (created : string) : obj :=
-    let all := [("@context", ctx); ("challenge", JStr (str_entry (lookup m "challenge")));
-                ("created", JStr created); ("cryptosuite", JStr "ecdsa-2019");
-                ("domain", JStr (str_entry (lookup m "domain")));
-                ("proofPurpose", JStr (str_entry (lookup m "proofPurpose")));
-                ("type", JStr di_type);
-                ("verificationMethod", JStr (str_entry (lookup m "verificationMethod")))] in
-    filter (fun kv => mem_str (fst kv) mem
-                      && match snd kv with
-                         | JStr s => nonempty s || negb (mem_str (fst kv) ["domain"; "challenge"])
-                         | _ => true
-                         end) all.
+    let opt := fun (k : string) (v : json) => if mem_str k mem then [(k, v)] else [] in
+    let opt_ne := fun (k : string) (s : string) => if mem_str k mem && nonempty s then [(k, JStr s)] else [] in
+    opt "@context" ctx
+    ++ opt_ne "challenge" (str_entry (lookup m "challenge"))
+    ++ opt "created" (JStr created)
+    ++ opt "cryptosuite" (JStr "ecdsa-2019")
+    ++ opt_ne "domain" (str_entry (lookup m "domain"))
+    ++ opt "proofPurpose" (JStr (str_entry (lookup m "proofPurpose")))
+    ++ opt "type" (JStr di_type)
+    ++ opt "verificationMethod" (JStr (str_entry (lookup m "verificationMethod"))).
 
   Definition is_str_or_absent (o : option json) : bool :=
     match o with None | Some (JStr _) | Some JNull => true | _ => false end.
